@@ -400,3 +400,18 @@ Proof. unfold best_d2_tab, best_d2. rewrite palette_entries_eq. apply fold_left_
 Theorem best_d2_tab_spec v m :
   (16 <= m < 256)%N -> best_d2_tab v <= d2 v (entry xcube_z xgreys_z m).
 Proof. intros H. rewrite best_d2_tab_eq. apply best_d2_spec, H. Qed.
+
+(* ---------- statements restricted to what the property is about: opaque colours ---------- *)
+Theorem pal256_exact_optimal_opaque (c : rgba) :
+  ca c = 255%N ->
+  (16 <= pal256_exact c < 256)%N /\
+  forall m, (16 <= m < 256)%N ->
+    d2 (lin_vec c) (entry cube_z greys_z (pal256_exact c)) <= d2 (lin_vec c) (entry cube_z greys_z m).
+Proof. intros _. apply pal256_exact_optimal. Qed.
+
+Theorem pal256_true_palette_upto_eps_opaque (c : rgba) :
+  ca c = 255%N ->
+  forall m, (16 <= m < 256)%N ->
+    d2 (lin_vec c) (entry xcube_z xgreys_z (pal256_exact c))
+    <= d2 (lin_vec c) (entry xcube_z xgreys_z m) + eps_sq_bound.
+Proof. intros _. apply pal256_true_palette_upto_eps. Qed.
